@@ -2042,6 +2042,49 @@ theorem frag3_of_B {s : Sys} {e : Ev} (h : frag3B s e = true) : Frag3 s e := by
     rw [hal] at h
     exact rangesDisj_of_B h.2
 
+/-- the same for the fragment of `Safety.lean` (no restart; ClusterCIDRs may be deleted and edited at any time) -/
+def fragB (s : Sys) : Ev → Bool
+  | .boot _ _ => false
+  | .ccAdd _ _ => true
+  | .ccDel _ => true
+  | .ccGen _ _ => true
+  | e => frag3B s e
+
+theorem frag_of_B {s : Sys} {e : Ev} (h : fragB s e = true) : Frag s e := by
+  cases e with
+  | boot svcs ws => simp [fragB] at h
+  | ccAdd name spec => trivial
+  | ccDel name => trivial
+  | ccGen name g => trivial
+  | nodeAdd n => exact frag_of_frag3 (fun _ _ he => by cases he) (frag3_of_B h)
+  | nodeDel name => trivial
+  | nodeDeleting name => trivial
+  | nodeLabels name ls => exact frag_of_frag3 (fun _ _ he => by cases he) (frag3_of_B h)
+  | nodeSetCIDRs name cidrs => exact frag_of_frag3 (fun _ _ he => by cases he) (frag3_of_B h)
+  | ccAddFin name fin => trivial
+  | deliverNode name tomb => exact frag_of_frag3 (fun _ _ he => by cases he) (frag3_of_B h)
+  | deliverCC name => trivial
+  | procNode name refresh ws => exact frag_of_frag3 (fun _ _ he => by cases he) (frag3_of_B h)
+  | procCC name w => exact frag_of_frag3 (fun _ _ he => by cases he) (frag3_of_B h)
+
+/-- the state a controller reaches by starting on an empty cluster satisfies the invariants -/
+theorem inv3_init : Inv3 Sys.init := by
+  refine ⟨?_, ?_, List.nodup_nil⟩
+  · apply inv_init
+    · intro i c hc; simp [Alloc.get?, Sys.init] at hc
+    · intro i j c d f p q hi; simp [Alloc.get?, Sys.init] at hi
+    · intro i c hc; simp [Alloc.get?, Sys.init] at hc
+    · rfl
+    · rfl
+    · exact List.nodup_nil
+    · intro y hy; simp [Sys.init] at hy
+  · refine ⟨?_, ?_, ?_, ?_, ?_⟩
+    · intro x hx; simp [SH, Sys.init] at hx
+    · intro n o ho; simp [Sys.init, getCC] at ho
+    · intro n v o hv; simp [Sys.init, getCC] at hv
+    · intro n v hv; simp [Sys.init, getCC] at hv
+    · intro n o ho; simp [Sys.init, getCC] at ho
+
 def frag3AllB : Sys → List Ev → Bool
   | _, [] => true
   | s, e :: rest => frag3B s e && frag3AllB (step s e).1 rest
